@@ -574,6 +574,9 @@ func (e *Env) evalCall(ex *SExpr) Val {
 				return Val{Typ: types.Typ[types.Int32], L: []string{fctx{e.s}.f2i(a.L[0])}}
 			}
 			return Val{Typ: types.Typ[types.Int32], L: []string{"(wrap32 " + a.L[0] + ")"}}
+		case "wrap64":
+			a := e.eval(args[0])
+			return Val{Typ: types.Typ[types.Int64], L: []string{"(wrap64 " + a.L[0] + ")"}}
 		case "uint64":
 			a := e.eval(args[0])
 			return Val{Typ: types.Typ[types.Uint64], L: []string{"(wrapu64 " + a.L[0] + ")"}}
